@@ -202,6 +202,44 @@ theorem polygonInertia_cls (M : Meas ℝ) (s : St ℝ) : (polygonInertia M s).1.
 theorem WF.setCentroid {M : Meas ℝ} {s : St ℝ} (hw : Spec.WF s) (v : V3 ℝ) : Spec.WF (setCentroid M s v) :=
   WF.of_frame hw (setCentroid_frame M s v)
 
+/-- where `Polygon.to_hoomd` leaves the shape, WITHOUT assuming anything about the centroid getter:
+translated to the origin, then translated to the old centroid as the getter sees it there -/
+theorem polygonToHoomd_observe (M : Meas ℝ) (s : St ℝ) (hw : Spec.WF s) (hk : s.cls.kind = .planar) :
+    observe (polygonToHoomd M s).1 =
+      Spec.moved M s.cls (Spec.moved M s.cls (observe s) V3.zero) (Spec.centroidOf M s.cls (observe s)) := by
+  -- the five states
+  have w1 := WF.setCentroid (M := M) hw V3.zero
+  have o1 := observe_setCentroid M s V3.zero hw
+  have c1 := setCentroid_cls M s V3.zero
+  have w2 := WF.alloc w1 (v3l (pubCentroid M (setCentroid M s V3.zero)))
+  have o2 := observe_alloc _ (v3l (pubCentroid M (setCentroid M s V3.zero))) w1
+  have k2 : ((setCentroid M s V3.zero).alloc (v3l (pubCentroid M (setCentroid M s V3.zero)))).cls.kind = .planar := by
+    show (setCentroid M s V3.zero).cls.kind = _; rw [c1, hk]
+  have f3 := polygonInertia_frame M ((setCentroid M s V3.zero).alloc (v3l (pubCentroid M (setCentroid M s V3.zero))))
+  have w3 := WF.of_frame w2 f3
+  have o3 := observe_polygonInertia M _ w2 k2
+  have a3 := polygonInertia_answer M _ w2
+  have w4 := WF.alloc w3 (cols2 ((polygonInertia M ((setCentroid M s V3.zero).alloc
+    (v3l (pubCentroid M (setCentroid M s V3.zero))))).1.get (polygonInertia M ((setCentroid M s V3.zero).alloc
+    (v3l (pubCentroid M (setCentroid M s V3.zero))))).1.fVerts))
+  have o4 := observe_alloc _ (cols2 ((polygonInertia M ((setCentroid M s V3.zero).alloc
+    (v3l (pubCentroid M (setCentroid M s V3.zero))))).1.get (polygonInertia M ((setCentroid M s V3.zero).alloc
+    (v3l (pubCentroid M (setCentroid M s V3.zero))))).1.fVerts)) w3
+  have o5 := observe_setCentroid M _ (pubCentroid M s) w4
+  have f5 := setCentroid_frame M ((polygonInertia M ((setCentroid M s V3.zero).alloc
+    (v3l (pubCentroid M (setCentroid M s V3.zero))))).1.alloc (cols2 ((polygonInertia M ((setCentroid M s V3.zero).alloc
+    (v3l (pubCentroid M (setCentroid M s V3.zero))))).1.get (polygonInertia M ((setCentroid M s V3.zero).alloc
+    (v3l (pubCentroid M (setCentroid M s V3.zero))))).1.fVerts))) (pubCentroid M s)
+  rw [o4, o3, o2, o1] at o5
+  have cls4 : ((polygonInertia M ((setCentroid M s V3.zero).alloc (v3l (pubCentroid M (setCentroid M s V3.zero))))).1.alloc
+      (cols2 ((polygonInertia M ((setCentroid M s V3.zero).alloc (v3l (pubCentroid M (setCentroid M s V3.zero))))).1.get
+        (polygonInertia M ((setCentroid M s V3.zero).alloc (v3l (pubCentroid M (setCentroid M s V3.zero))))).1.fVerts))).cls
+      = s.cls := by
+    show (polygonInertia M _).1.cls = _
+    rw [polygonInertia_cls]; exact c1
+  rw [cls4, ← centroidOf_observe M s] at o5
+  exact o5
+
 theorem polygonToHoomd_refines (M : Meas ℝ) (hL : Spec.Lawful M) (s : St ℝ) (hw : Spec.WF s)
     (hc : Spec.Coherent M s) (hk : s.cls.kind = .planar) :
     Refines M s (polygonToHoomd M s)
